@@ -198,6 +198,38 @@ def run(chk):
         if len(chk.samples) < 4 and len(seq) >= 2:
             chk.sample({'case': case['label'], 'batches_and_kernels': list(seq)})
     unforced(chk, cases, allowed_free, rng)
+    mia_threads(chk, rng)
+    numba.set_num_threads(min(16, numba.config.NUMBA_NUM_THREADS))
+
+
+def mia_threads(chk, rng):
+    """the MIA histogram for every thread count: few samples and many data words, many samples and few words, sample values on and next to interior bin
+    edges (where the bin is decided by the configured edges) - the joint histogram is the same whatever the number of threads"""
+    import numba
+    import scared
+    edges = np.linspace(0, 1, 11)
+    vals = [float(e) for e in edges] + [float(np.nextafter(e, 0)) for e in edges[1:]] + [float(np.nextafter(e, 2)) for e in edges[:-1]] + [0.05, 0.55, 0.95, -0.2, 1.3]
+    for S, W in ((1, 8), (2, 16), (9, 1), (3, 3)):
+        n = 60
+        t = np.array([[vals[(7 * i + 3 * j) % len(vals)] for j in range(S)] for i in range(n)], dtype='float64')
+        d = np.array([[(i + 2 * j) % 4 for j in range(W)] for i in range(n)], dtype='uint8')
+        ref = None
+        for nt in (1, 2, 3, 4, 8, 16):
+            if nt > numba.config.NUMBA_NUM_THREADS:
+                continue
+            numba.set_num_threads(nt)
+            o = scared.MIADistinguisher(bin_edges=edges, partitions=np.arange(4))
+            o.update(t[:25], d[:25])
+            o.update(t[25:], d[25:])
+            acc = np.array(o.accumulators)
+            chk.count(('mia-threads', S, W, nt), nontrivial=nt > 1)
+            chk.traces_validated += 1
+            if ref is None:
+                ref = acc
+            elif acc.shape != ref.shape or not np.array_equal(acc, ref):
+                chk.violation('mia:state after the batch equals the specification state whichever kernel ran (thread count)', {'property': 'C11', 'part': 'mia-threads', 'samples': S, 'words': W, 'threads': nt,
+                                                                                                                            'cells_differing': int(np.sum(acc != ref)) if acc.shape == ref.shape else -1},
+                              f'MIA joint histogram with {nt} threads differs from the one with 1 thread ({S} samples, {W} words)')
     numba.set_num_threads(min(16, numba.config.NUMBA_NUM_THREADS))
 
 
